@@ -43,10 +43,10 @@ def _detect_ssc(
 ) -> Tuple[Union[TextIO, Iterator[str]], bool]:
     if isinstance(file, TextIOWrapper) or isinstance(file, TextIO):
         if type(file.name) is str:
-            _, _, suffix = file.name.lower().rpartition(".")
-            if suffix == "ssc":
+            filename = file.name.lower()
+            if filename.endswith(".ssc"):
                 return (file, True)
-            elif suffix == "sm":
+            elif filename.endswith(".sm"):
                 return (file, False)
         # Peeking consumes the file object, so read it once and hand the
         # buffered text on to the loader
